@@ -371,7 +371,8 @@ SPEC = {
     'hooks': True,
     'gen_cases': gen_cases,
     'impl_shards': 8,
-    'rule': 'hand-written PDF files (classic xref table, objects in shuffled physical order) with 0..6 (thorough: ..8) '
+    'rule': 'hand-written PDF files (classic xref table or a cross-reference stream whose Compressed entries name right, wrong '
+            'and non-existent containers; objects in shuffled physical order) with 0..6 (thorough: ..8) '
             'object streams over a small pool of object numbers (shared numbers with equal and with different bodies, '
             'numbers that are also Normal entries, members out of bounds, broken and empty object streams), ordinary '
             'streams whose Length is direct / zero / a resolvable reference / a reference defined only inside object '
@@ -408,10 +409,34 @@ def run(ctx):
     return propcheck.standard_check(ctx, SPEC)
 
 
+def replay(ctx, r):
+    """./check C08 --replay FILE : rebuild both harness configurations, run the recorded case on implementation and model"""
+    import json
+    case = r.get('case')
+    if not case:
+        print(json.dumps(r, indent=1))
+        return 1
+    _seq_oracle()
+    impl, log = vlib.build_harness(SPEC['bin'], None, True)
+    if impl is None:
+        print(log[-3000:])
+        return 1
+    runner, _ = vlib.build_runner(SPEC['runner'])
+    io = vlib.run_lines(impl, [case])[0]
+    print('impl :', io)
+    out, verdict = vlib.split_impl(io)
+    bad = verdict.startswith('FAIL')
+    if runner:
+        mo = vlib.run_lines(runner, [case])[0]
+        print('model:', mo)
+        bad = bad or mo != out
+    return 1 if bad else 0
+
+
 MANIFEST = {
     'level_text': 'Machine-checked proof (Coq) over a model of the loading phase of Reader::read and ObjectStream::new '
                   '(tasks per xref entry, atomic appends to the two shared vectors in arbitrary order, any cut of the entry '
-                  'range into jobs, then collect / sort by xref key / only-add merge / zero-length pass): for every file '
+                  'range into jobs, then collect / sort by xref key / only-add merge preferring the container the xref names / zero-length pass): for every file '
                   'and every schedule the loaded document equals the sequential one (C08_par_eq_seq), two schedules give '
                   'the same document (C08_schedule_independent), the zero-length pass commutes (C08_zero_len_commutes); '
                   'for the merge as it was before the repair the same under the hypothesis that object streams agree on '
